@@ -305,6 +305,21 @@ pub enum Junk {
     /// `k` levels of container nesting (the decoders refuse more than 256)
     Deep { kind: u8, k: u16 },
     Raw(Vec<u8>),
+    /// a COMPRESSED section that must be refused: declared size off by `delta` (how 0), zlib stream cut short (1),
+    /// or an inner encoding that is itself cut short (2)
+    BadCompressed { value: Value, how: u8, delta: i8 },
+}
+
+pub fn compressed_form(body_with_version: &[u8], declared_delta: i64, cut_stream: bool) -> Vec<u8> {
+    let body = &body_with_version[1..];
+    let mut z = crate::props::c02::deflate(body);
+    if cut_stream {
+        z.truncate(z.len().saturating_sub(5).max(1));
+    }
+    let mut o = vec![131u8, 80];
+    o.extend_from_slice(&((body.len() as i64 + declared_delta).max(0) as u32).to_be_bytes());
+    o.extend_from_slice(&z);
+    o
 }
 
 #[derive(Clone, Debug, Serialize, Deserialize)]
@@ -315,6 +330,9 @@ pub struct AfterCase {
     pub depth: u8,
     pub kind: u8,
     pub leaf: Value,
+    /// the valid term travels as a COMPRESSED section
+    #[serde(default)]
+    pub compressed: bool,
 }
 
 pub fn junk_bytes(j: &Junk) -> Vec<u8> {
@@ -326,6 +344,17 @@ pub fn junk_bytes(j: &Junk) -> Vec<u8> {
         }
         Junk::Deep { kind, k } => crate::props::c02::bytes_of(&crate::props::c02::Case::Depth { kind: *kind, k: *k as u32 }).0,
         Junk::Raw(b) => b.clone(),
+        Junk::BadCompressed { value, how, delta } => {
+            let b = refmodel::etf::refenc_canonical(value);
+            match how % 3 {
+                0 => compressed_form(&b, if *delta == 0 { 1 } else { *delta as i64 }, false),
+                1 => compressed_form(&b, 0, true),
+                _ => {
+                    let cut = &b[..b.len() - 1];
+                    compressed_form(cut, 0, false)
+                }
+            }
+        }
     }
 }
 
@@ -354,7 +383,8 @@ pub fn after_oracle(case: &AfterCase) -> Verdict {
     // kind 3 nests two levels per step
     let depth = if case.kind % 4 == 3 { (case.depth as usize).min(250) / 2 } else { (case.depth as usize).min(250) };
     let v = nested(case.kind, depth, &case.leaf);
-    let bytes = refmodel::etf::refenc_canonical(&v);
+    let plain = refmodel::etf::refenc_canonical(&v);
+    let bytes = if case.compressed { compressed_form(&plain, 0, false) } else { plain };
     let here = (erltf::decode(&bytes).map(|t| denote(&t)), erltf::decode_borrowed(&bytes).map(|t| denote(&t.to_owned())).map_err(|e| e.error));
     let b2 = bytes.clone();
     let fresh = std::thread::Builder::new()
@@ -364,6 +394,10 @@ pub fn after_oracle(case: &AfterCase) -> Verdict {
         .join()
         .unwrap_or_else(|_| Err(erltf::DecodeError::InvalidFormat("panicked".into())));
     for (name, r) in [("decode", &here.0), ("decode_borrowed", &here.1)] {
+        // the zero-copy decoder does not take COMPRESSED sections at all (nothing to borrow from)
+        if case.compressed && name == "decode_borrowed" {
+            continue;
+        }
         match (r, &fresh) {
             (Ok(a), _) if a.same(&v) => {}
             (Ok(a), _) => vfail!("decoded-value-differs", "{name} of a {depth}-level nested term gave {}", crate::engine::truncate(&a.render(), 300)),
@@ -375,7 +409,13 @@ pub fn after_oracle(case: &AfterCase) -> Verdict {
         }
     }
     let info = if rejected > 0 && depth >= 8 { CaseInfo::nt(fp(&format!("{:?}", case))) } else { CaseInfo::trivial() };
-    Verdict::Pass(info.class_if(rejected > 0, "after-rejections").class_if(depth >= 200, "nesting>=200"))
+    let bad_z = case.before.iter().any(|(j, _)| matches!(j, Junk::BadCompressed { .. }));
+    Verdict::Pass(
+        info.class_if(rejected > 0, "after-rejections")
+            .class_if(depth >= 200, "nesting>=200")
+            .class_if(case.compressed, "valid-term-compressed")
+            .class_if(case.compressed && bad_z, "compressed-after-refused-compressed"),
+    )
 }
 
 pub fn after_strategy() -> impl Strategy<Value = AfterCase> {
@@ -389,14 +429,16 @@ pub fn after_strategy() -> impl Strategy<Value = AfterCase> {
             }
             Junk::Raw(b)
         }),
+        3 => (arb_value(small), 0u8..3, prop_oneof![Just(1i8), Just(-1), Just(7), Just(-3)]).prop_map(|(value, how, delta)| Junk::BadCompressed { value, how, delta }),
     ];
     (
         prop::collection::vec((junk, prop_oneof![Just(1u8), Just(3), Just(40), Just(150)]), 0..6),
         prop_oneof![Just(250u8), Just(249), Just(128), 0u8..=250],
         0u8..4,
         arb_value(GenCfg { depth: 1, size: 3, heavy: false, ..GenCfg::std() }),
+        prop::bool::weighted(0.4),
     )
-        .prop_map(|(before, depth, kind, leaf)| AfterCase { before, depth, kind, leaf })
+        .prop_map(|(before, depth, kind, leaf, compressed)| AfterCase { before, depth, kind, leaf, compressed })
 }
 
 pub fn replays() -> Vec<ReplayEntry> {
